@@ -13,6 +13,7 @@ import (
 
 	mocker "github.com/tencent/goom"
 	"github.com/tencent/goom/zzverif/corpus/conv"
+	"github.com/tencent/goom/zzverif/corpus/fn"
 	"github.com/tencent/goom/zzverif/corpus/ifc"
 )
 
@@ -241,6 +242,32 @@ func TestVerifArgConv(t *testing.T) {
 			catch(func() { b.Reset() })
 			emit(k.name, "val", fmt.Sprintf("when-variadic-%d-elements", nargs), outcome)
 		}
+	}
+	// two UNEXPORTED methods of one struct stubbed by name one after the other (As(f).Return): each value must reach the callers of
+	// its own method, typed as that method declares
+	{
+		b := mocker.Create()
+		outcome := "same"
+		p := catch(func() {
+			b.Struct(&fn.S{}).ExportMethod("f").As(func(*fn.S, int) int { return 0 }).Return(9101)
+			b.Struct(&fn.S{}).ExportMethod("g").As(func(*fn.S, int) int { return 0 }).Return(9102)
+			s := &fn.S{Tag: 7}
+			if r := s.CallUEM("g", 5); r != 9102 {
+				outcome = fmt.Sprintf("wrong-second-method-got-%d", r)
+			} else if r := s.CallUEM("f", 5); r != 9101 {
+				outcome = fmt.Sprintf("wrong-first-method-got-%d", r)
+			} else if r := s.CallUEM("f", 5); r != 9101 {
+				outcome = fmt.Sprintf("wrong-first-method-second-call-got-%d", r)
+			}
+		})
+		if p != "" {
+			outcome = "panic:" + p
+			if len(outcome) > 90 {
+				outcome = outcome[:90]
+			}
+		}
+		catch(func() { b.Reset() })
+		emit("int", "val", "two-unexported-methods", outcome)
 	}
 	// SEQUENCES of interface-typed results: distinct concrete values given to Returns / Return+AndReturn must come back one after the
 	// other, each as itself (every configured value keeps a box of its own), also when a condition's sequence is interleaved
